@@ -251,22 +251,24 @@ def lp_gate(case):
     if "lp" not in case.flags or case.entry[0] not in ("min", "max"):
         return False
     vs, rows = set(), 0
+    import re
     for r in case.rows:
         t = r.text.split()
+        allv = set(int(x) for x in re.findall(r"x(\d+)", r.text))
+        anyf = any(case.is_float(v) for v in allv)
         if r.route == "lin" and r.rel in ("eq", "le"):
-            vs |= set(r.coeffs) | set(int(x[1:]) for x in t[3].split(",")); rows += 1
+            vs |= allv; rows += 1
+        elif r.route == "ilin" and r.rel in ("eq", "le") and anyf:
+            vs |= allv; rows += 1                 # posted as FloatLinEq/Le since the repair (was IntLin*: not scanned)
         elif r.route == "props" and t[1] in ("flineq", "flinle"):
-            vs |= set(int(x[1:]) for x in t[3].split(",")); rows += 1
+            vs |= allv; rows += 1
         elif r.route == "props" and t[1] in ("leq", "geq") and t[2].startswith("x") and t[3].startswith("x"):
             vs |= {int(t[2][1:]), int(t[3][1:])}; rows += 1
         elif r.route == "new" and r.linear:
-            simple_eq = r.rel == "eq" and ((fm._plain_var(r.extra["lhs"]) and fm._plain_const(r.extra["rhs"])) or (fm._plain_var(r.extra["rhs"]) and fm._plain_const(r.extra["lhs"])))
-            if simple_eq: continue
-            import re
-            allv = set(int(x) for x in re.findall(r"x(\d+)", r.text))
+            if fm._simple_eq(r): continue
             if r.rel in ("eq", "le", "ge"):
                 vs |= allv; rows += 1             # pending LP row (extract_lp_constraint)
-            if not r.extra["all_int"]:
+            if (not r.extra["all_int"] or anyf) and r.rel != "ne":
                 vs |= allv; rows += 1             # the FloatLinEq/Le propagator is scanned as well (also for < and >)
     obj = int(case.entry[1][1:])
     return rows >= 1 and len(vs) >= 2 and obj in vs
